@@ -15,6 +15,7 @@ CONSTANTS
   MaxFail <- TraceMaxFail
   AllowSkip = TRUE
   AllowStop = TRUE
+  AllowBail = TRUE
 INVARIANTS TypeOK Asserts Ownership OnceInOrder Deterministic ErrorsAccountedR WaitSane LastIsDone
 POSTCONDITION TraceAccepted
 CHECK_DEADLOCK FALSE
